@@ -66,6 +66,8 @@ def observe_cell(ml, c, work):
     def classify_src(x, path, data):
         if isinstance(x, str) and x is data:
             return "SGivenStr"
+        if isinstance(x, (str, os.PathLike)) and os.path.abspath(os.fspath(x)) == os.path.abspath(str(path)):
+            return "SStreamOfPath"     # handing the path itself to the class method (which opens it) is the same source
         if hasattr(x, "read") and getattr(x, "name", None) is not None and os.path.abspath(str(x.name)) == os.path.abspath(str(path)) \
                 and "r" in getattr(x, "mode", "") and "b" not in getattr(x, "mode", "") and not x.closed:
             return "SStreamOfPath"
